@@ -247,7 +247,10 @@ def indirect(ctx, c):
         c.count('indirect:oscscore')
         if 'error' not in r:
             ops = [['add', ['F', '0'], '/g_new']] + [['add', ['F', t], i] for t, i in spec['adds']]
-            tail = str(Fraction(spec['tail']) + Fraction(r['now']))
+            # the closing marker goes at now + tailtime but never before the latest bundle
+            # (sc3 fix 'the score's tail marker never precedes the last bundle', property C07)
+            latest = max([Fraction(0)] + [Fraction(t) for t, _ in spec['adds']])
+            tail = str(max(Fraction(spec['tail']) + Fraction(r['now']), latest))
             ref = oracle.run_reference(ops + [['peek', False], ['add', ['F', tail], '/c_set'], ['iter']])
             exp = {'latest': ref[-3][1:], 'list': ref[-1][1]}
         if 'error' in r or exp != {'latest': r['latest'], 'list': r['list']}:
